@@ -160,6 +160,74 @@ def run(rep, tier, rng):
                              "py": f"A.invert(A.invert(a, sidedness={algs.SIDE_PY[sd]}), sidedness={algs.SIDE_PY[sd]}) == a"},
                             ("invert-twice", al, d, sd, tuple(a)))
 
+    # ---- vocabulary special names: strict, non-strict and auto-created vocabularies --------------------------
+    import warnings as _w
+    import nengo_spa as _spa
+    from nengo_spa.vocabulary import VocabularyMap
+    NAMES = {"Identity": "EIdentity", "Zero": "EZero", "AbsorbingElement": "EAbsorbing"}
+    for al in algs.ALGS:
+        A = algs.alg_obj(al)
+        for d in algs.dims_for(al, 9 if quick else 25):
+            vocabs = {"strict": _spa.Vocabulary(d, algebra=A, strict=True, pointer_gen=np.random.RandomState(1)),
+                      "non-strict": _spa.Vocabulary(d, algebra=A, strict=False, pointer_gen=np.random.RandomState(1)),
+                      "non-strict-populated": _spa.Vocabulary(d, algebra=A, strict=False, pointer_gen=np.random.RandomState(1))}
+            vocabs["non-strict-populated"].populate("A; B")
+            if al == "AHrr":
+                vocabs["auto-created"] = VocabularyMap(rng=np.random.RandomState(1)).get_or_create(d)
+            for vk, voc in vocabs.items():
+                for nm, el in NAMES.items():
+                    for how in ("getitem", "parse"):
+                        before = list(voc.keys())
+                        with _w.catch_warnings():
+                            _w.simplefilter("ignore")
+                            o = c.observe((lambda: voc[nm].v) if how == "getitem" else (lambda: voc.parse(nm).v))
+                        add(f"check_element {al} {el} {c.nat(d)} STwo {T} {obs_t(o)}",
+                            {"op": "vocabulary-special-name", "alg": al, "el": el, "d": d, "side": "STwo", "vocab": vk, "how": how,
+                             "obs": c.obs_json(o), "py": f"Vocabulary({d}, algebra=A, strict={vk == 'strict'})[{nm!r}] / .parse({nm!r})"},
+                            ("special-name", al, d, vk, nm, how))
+                        if list(voc.keys()) != before:
+                            rep.violation(f"looking up the special name {nm!r} changed the keys of a {vk} vocabulary", {"case": {"alg": al, "d": d, "vocab": vk}})
+
+    # ---- call-history independence: the same queries in shuffled orders on one algebra object ----------
+    # (every answer is a function of the arguments alone: an earlier request for another side / size
+    # must not change it)
+    for al in algs.ALGS:
+        for rnd in range(2 if quick else 6):
+            A = algs.alg_obj(al)          # one fresh instance per round, shared by all queries of the round
+            qs = []
+            for d in (algs.dims_for(al, 9) if rnd % 2 == 0 else algs.dims_for(al, 16)[-2:]):
+                for sd in SIDES:
+                    qs.append(("imat", d, sd, None))
+                    qs.append(("invert", d, sd, algs.rand_vec(rng, d)))
+                    for el in ELEMS:
+                        qs.append(("element", d, sd, el))
+                for sw in (False, True):
+                    qs.append(("bmat", d, sw, algs.rand_vec(rng, d)))
+            rng.shuffle(qs)
+            qs = qs + qs[::-1][: len(qs) // 2]
+            for pos, (kind, d, x, y) in enumerate(qs):
+                base = {"alg": al, "d": d, "history_position": pos, "round": rnd}
+                if kind == "imat":
+                    o = c.observe(lambda: A.get_inversion_matrix(d, sidedness=algs.side_obj(x)))
+                    add(f"check_imat {al} {c.nat(d)} {x} {T} {obs_t(o, algs.enc_mat)}",
+                        dict(base, op="history-inversion-matrix", side=x, obs=c.obs_json(o), py=f"A.get_inversion_matrix({d}, sidedness={algs.SIDE_PY[x]}) after {pos} other calls"),
+                        ("h-imat", al, d, x, rnd, pos))
+                elif kind == "invert":
+                    o = c.observe(lambda: A.invert(algs.fl(y), sidedness=algs.side_obj(x)))
+                    add(f"check_invert {al} {c.zlist(y)} {x} {algs.tol_for(y)} {obs_t(o)}",
+                        dict(base, op="history-invert", side=x, a=y, obs=c.obs_json(o), py=f"A.invert(a, sidedness={algs.SIDE_PY[x]}) after {pos} other calls"),
+                        ("h-invert", al, d, x, rnd, pos))
+                elif kind == "element":
+                    o = c.observe(lambda: getattr(A, ELEMS[y])(d, sidedness=algs.side_obj(x)))
+                    add(f"check_element {al} {y} {c.nat(d)} {x} {T} {obs_t(o)}",
+                        dict(base, op="history-element", side=x, el=y, obs=c.obs_json(o), py=f"A.{ELEMS[y]}({d}, sidedness={algs.SIDE_PY[x]}) after {pos} other calls"),
+                        ("h-element", al, d, x, y, rnd, pos))
+                else:
+                    o = c.observe(lambda: A.get_binding_matrix(algs.fl(y), swap_inputs=x))
+                    add(f"check_bmat {al} {c.zlist(y)} {c.b(x)} {algs.tol_for(y, d=1)} {obs_t(o, algs.enc_mat)}",
+                        dict(base, op="history-binding-matrix", a=y, obs=c.obs_json(o), py=f"A.get_binding_matrix(a, swap_inputs={x}) after {pos} other calls"),
+                        ("h-bmat", al, d, x, rnd, pos))
+
     verdicts = c.coq_eval("C08", "cases", algs.IMPORTS, exprs, shard=150)
     for ok, m in zip(verdicts, meta):
         if ok:
